@@ -12,7 +12,7 @@ PROP = "C10"
 
 def cases(rng, tier):
     cs = []
-    for _ in range(150 if tier == "quick" else 2500):
+    for _ in range(150 if tier == "quick" else 8000):
         nodes, lay = qa.gen_program(rng, nstmts=rng.randint(5, 40 if tier == "thorough" else 25), max_q=5,
                                     gate_defs=3, depth=rng.randint(1, 4))
         c = {"chunks": [nodes], "seed": rng.randrange(1 << 30), "lay": lay}
